@@ -152,6 +152,7 @@ pub fn sup_spec(sb: &Sandbox, args: Vec<Vec<u8>>, rules: Vec<Rule>, sched: Sched
         sched,
         log_all: false,
         extra_env: vec![],
+        stdout_to: None,
     }
 }
 
